@@ -268,6 +268,9 @@ fn update_head(encoding: ContentEncoding, head: &mut ResponseHead) {
     head.headers_mut()
         .append(header::VARY, HeaderValue::from_static("accept-encoding"));
 
+    // the length of the unencoded body is stale once the body is re-encoded
+    head.headers_mut().remove(header::CONTENT_LENGTH);
+
     head.no_chunking(false);
 }
 
